@@ -431,11 +431,21 @@ func (ck *checker) process(cases []*kase, par int, nativeEvery int) {
 			}
 		}
 	}
-	// native reference: every disagreement alone (the first few per listed signature), the
-	// agreeing sample many per program
+	// native reference: every disagreement alone (the first three per signature: one replay is
+	// recorded per signature, further histories with the same signature only add to the counts),
+	// the agreeing sample many per program
 	var natBad []*st
 	for _, s := range bad {
-		need := s.attr == nil
+		need := false
+		if s.attr == nil {
+			trigger, mode := signature(s.k, s.want, s.res, s.crash, s.step, s.got)
+			ck.mu.Lock()
+			if ck.corroborated[trigger+" / "+mode] < 3 {
+				ck.corroborated[trigger+" / "+mode]++
+				need = true
+			}
+			ck.mu.Unlock()
+		}
 		for _, p := range s.attr {
 			ck.mu.Lock()
 			if !c.IsKnown(p.trigger, constructMode) || ck.corroborated[p.id] < 3 {
@@ -543,6 +553,40 @@ var constructs = []construct{
 		}},
 }
 
+// signature computes (trigger, mode) of a deviating history from the operation at the first
+// differing step and from what differs there.
+func signature(k *kase, want []string, res progRes, crash string, step int, got string) (string, string) {
+	trigger := "prologue(" + k.B.Init + ")"
+	if step >= 1 && step <= len(k.B.Ops) {
+		trigger = opSig(k.B.Ops[step-1])
+	}
+	trigger += " [" + k.Scope + "]"
+	mode := ""
+	switch {
+	case crash != "":
+		mode = "harness child " + crash
+		if len(mode) > 60 {
+			mode = mode[:60]
+		}
+	case step < len(want) && got != "<no output>":
+		we, wp := splitLine(want[step])
+		ge, gp := splitLine(got)
+		switch {
+		case we != ge && wp == gp:
+			mode = "reported value differs"
+		case we == ge:
+			mode = "pool state differs"
+		default:
+			mode = "reported value and pool state differ"
+		}
+	case res.Err != "":
+		mode = "error: " + errClass(res.Err)
+	default:
+		mode = "output stops"
+	}
+	return trigger, mode
+}
+
 // verdict records one deviating history.
 func (ck *checker) verdict(k *kase, want []string, res progRes, crash string, step int, got string, attr []*construct, corroborated bool) {
 	c := ck.c
@@ -573,34 +617,7 @@ func (ck *checker) verdict(k *kase, want []string, res progRes, crash string, st
 		}
 		return
 	}
-	trigger := "prologue(" + k.B.Init + ")"
-	if step >= 1 && step <= len(k.B.Ops) {
-		trigger = opSig(k.B.Ops[step-1])
-	}
-	trigger += " [" + k.Scope + "]"
-	mode := ""
-	switch {
-	case crash != "":
-		mode = "harness child " + crash
-		if len(mode) > 60 {
-			mode = mode[:60]
-		}
-	case step < len(want) && got != "<no output>":
-		we, wp := splitLine(want[step])
-		ge, gp := splitLine(got)
-		switch {
-		case we != ge && wp == gp:
-			mode = "reported value differs"
-		case we == ge:
-			mode = "pool state differs"
-		default:
-			mode = "reported value and pool state differ"
-		}
-	case res.Err != "":
-		mode = "error: " + errClass(res.Err)
-	default:
-		mode = "output stops"
-	}
+	trigger, mode := signature(k, want, res, crash, step, got)
 	ck.mu.Lock()
 	ck.bySig[trigger+" / "+mode]++
 	ck.mu.Unlock()
@@ -827,12 +844,7 @@ func (ck *checker) generate() error {
 	c := ck.c
 	var jobs []tlcJob
 	only := os.Getenv("VERIF_C04_ONLY") // development aid: name of one family, or "sim"
-	for _, f := range families(c.Quick()) {
-		if only == "" || only == f.name {
-			jobs = append(jobs, tlcJob{fam: f})
-		}
-	}
-	simJVMs, simNum := c.Pick(2, 16), c.Pick(100, 320)
+	simJVMs, simNum := c.Pick(4, 16), c.Pick(50, 320)
 	bfsWorkers := c.Pick(2, 2)
 	simFam := family{name: "sim", roots: fullPool, init: "rich", steps: 25, maxSel: 3, maxIdx: 3, copyTypes: []string{"int", "A", "S", "L", "AS", "PI", "F", "M", "MS"},
 		kinds: append(append([]string{}, allKinds...), newKinds...),
@@ -844,6 +856,12 @@ func (ck *checker) generate() error {
 				f.init = "zero"
 			}
 			jobs = append(jobs, tlcJob{fam: f, sim: true, num: simNum, seed: c.Seed*1000 + int64(j)})
+		}
+	}
+	// (the simulations are queued first: they are single-threaded and the longest jobs)
+	for _, f := range families(c.Quick()) {
+		if only == "" || only == f.name {
+			jobs = append(jobs, tlcJob{fam: f})
 		}
 	}
 	coverage := os.Getenv("VERIF_C04_COVERAGE") != ""
@@ -882,12 +900,19 @@ func (ck *checker) generate() error {
 	var mu sync.Mutex
 	var tlcCPU time.Duration
 	emitted := map[string]int{}
-	lanes := 3 // at most 8 JVM worker threads at once (BFS jobs use 2 workers, simulations 1)
-	for l := 0; l < lanes; l++ {
+	// at most 8 JVM worker threads at once: 2 lanes of BFS jobs (2 workers each) and 4 lanes of
+	// simulations (1 worker each)
+	simCh := make(chan tlcJob)
+	const bfsLanes, simLanes = 2, 4
+	for l := 0; l < bfsLanes+simLanes; l++ {
 		tw.Add(1)
+		ch := jobCh
+		if l >= bfsLanes {
+			ch = simCh
+		}
 		go func() {
 			defer tw.Done()
-			for j := range jobCh {
+			for j := range ch {
 				var buf []*kase
 				n := 0
 				var perr error
@@ -959,10 +984,24 @@ func (ck *checker) generate() error {
 			}
 		}()
 	}
+	var fw2 sync.WaitGroup
+	fw2.Add(1)
+	go func() {
+		defer fw2.Done()
+		for _, j := range jobs {
+			if j.sim {
+				simCh <- j
+			}
+		}
+		close(simCh)
+	}()
 	for _, j := range jobs {
-		jobCh <- j
+		if !j.sim {
+			jobCh <- j
+		}
 	}
 	close(jobCh)
+	fw2.Wait()
 	tw.Wait()
 	close(batches)
 	pw.Wait()
